@@ -101,6 +101,29 @@ Theorem C18_void_range_refuted :
                     /\ decl = {| g_sl := 15; g_sc := 0; g_el := 17; g_ec := 1 |}.
 Proof. exact void_range_refuted. Qed.
 
+(* the range of the return values (the anchor of the return-signature and not-an-error
+   diagnostics): for return values in source order - on one line or spread over several - it
+   encloses every return value, and lies inside whatever encloses them all (the result list, the
+   declaration, the file's text) *)
+Theorem C18_rets_range_encloses : forall l x,
+  in_order l = true -> In x l -> inside x (rets_range l) = true.
+Proof. exact rets_range_encloses. Qed.
+
+Theorem C18_rets_range_inside : forall l reg,
+  l <> [] -> in_order l = true -> (forall x, In x l -> inside x reg = true) -> inside (rets_range l) reg = true.
+Proof. exact rets_range_inside. Qed.
+
+(* non-vacuity on a result list wrapped over three lines whose first value is the longer one; there
+   the smallest/largest line and column taken apart leave the list *)
+Example C18_rets_range_wrapped :
+  in_order demo_wrapped_rets = true
+  /\ (forall x, In x demo_wrapped_rets -> inside x demo_wrapped_list = true)
+  /\ rets_range demo_wrapped_rets = {| g_sl := 21; g_sc := 1; g_el := 22; g_ec := 7 |}
+  /\ inside (rets_range demo_wrapped_rets) demo_wrapped_list = true
+  /\ componentwise_hull demo_wrapped_rets = {| g_sl := 21; g_sc := 1; g_el := 22; g_ec := 11 |}
+  /\ componentwise_hull demo_wrapped_rets <> rets_range demo_wrapped_rets.
+Proof. exact rets_range_not_componentwise. Qed.
+
 (* non-vacuity: a receiver with five diagnostics of different kinds and their ranges; a value
    range that is inside its comment; the first-occurrence behaviour of GetValueRange *)
 Example C18_nonvacuous_ranges :
@@ -139,3 +162,6 @@ Print Assumptions C18_void_range_refuted.
 Print Assumptions C18_nonvacuous_ranges.
 Print Assumptions C18_nonvacuous_inside.
 Print Assumptions C18_first_occurrence.
+Print Assumptions C18_rets_range_encloses.
+Print Assumptions C18_rets_range_inside.
+Print Assumptions C18_rets_range_wrapped.
